@@ -58,8 +58,8 @@ prop("C05", engine="eval", prefixes=["C05."], level="model_checking",
      quick=dict(traces=96, nops=25), thorough=dict(traces=2400, nops=40))
 prop("C06", engine="eval", prefixes=["C06."], level="model_checking",
      mc=("MxEval", "MC_MxEval_quick.cfg", "MC_MxEval_thorough.cfg"),
-     jobs=lambda tier: [("value", dict(gen=dict(p_uncached=0.1))),
-                        ("value", dict(gen=dict(p_uncached=0.1), recalc=True))],
+     jobs=lambda tier: [("value", dict(gen=dict(p_uncached=0.1, p_catch=0.0))),
+                        ("value", dict(gen=dict(p_uncached=0.1, p_catch=0.0), recalc=True))],
      quick=dict(traces=96, nops=30), thorough=dict(traces=2400, nops=45))
 prop("C08", engine="eval", prefixes=["C08."], level="model_checking",
      mc=("MxEval", "MC_MxEval_quick.cfg", "MC_MxEval_thorough.cfg"),
@@ -177,7 +177,8 @@ def corrupt(pid, tr, rng):
                 post["data"].append([node, 1])
                 post["tgn"].append(node)
                 return t, "C05.FailedHoldNothing"
-        if pid == "C06" and e["op"] in ("set_value", "clear_at") and e["res"] == "ok":
+        if pid == "C06" and e["op"] in ("set_value", "clear_at") and e["res"] == "ok" \
+                and not t["hdr"].get("recalc"):
             tgt = e["c"] + [e["args"]]
             others = [d for d in post["data"] if d[0] != tgt and d[0] not in post["inputs"]]
             if others:
